@@ -5,9 +5,14 @@
   A *gap* is a list of atoms: space, tab, CR, LF and `#text⏎` comments (`text` without LF). A layouted tree
   carries one gap at every place where the grammar allows layout between two tokens; there is no gap inside a
   type-prefix chain (`?`, `[]`, `[string]` are glued to their operand). `render` writes the text, `erase` forgets
-  the layout, `docOf` is the documentation a gap in front of a member gives to that member: the texts of the
-  whole-line comments after the last line break that is not the end of such a comment, i.e. the block of comment
-  lines directly above the member.
+  the layout.
+
+  Documentation: `gapDoc` carries the pair (the current line is blank so far, the block of whole-line comments
+  directly above the current line) across a gap; a token makes the line non-blank and leaves the block alone.
+  `gapPend lc g` is the block behind a gap `g` that follows a token, `….pend` carries it across a type, a field
+  list, a member. The documentation of a member is the block in front of its keyword — the comment lines directly
+  above the line on which the keyword stands. When the gap in front of the member contains a line break (the member
+  starts on a new line) this is `docOf` of that gap alone, whatever stands before it.
 -/
 import Varlink.Idl.Syntax
 import Varlink.Idl.Parser
@@ -40,11 +45,6 @@ def Atom.isBreak : Atom → Bool
   | .comment _ => true
   | _ => false
 
-def Atom.isSpTab : Atom → Bool
-  | .sp => true
-  | .tab => true
-  | _ => false
-
 def Atom.isBlank : Atom → Bool
   | .sp => true
   | .tab => true
@@ -61,8 +61,6 @@ def renderGap : Gap → Bytes → Bytes
 def Gap.wf (g : Gap) : Bool := g.all Atom.wf
 /-- the gap contains a line break -/
 def Gap.hasBreak (g : Gap) : Bool := g.any Atom.isBreak
-/-- only spaces and tabs -/
-def Gap.onLine (g : Gap) : Bool := g.all Atom.isSpTab
 /-- only spaces, tabs and CR: no line break -/
 def Gap.blank (g : Gap) : Bool := g.all Atom.isBlank
 
@@ -90,8 +88,12 @@ def docStep : Bool × Bytes → Atom → Bool × Bytes
 
 def gapDoc (st : Bool × Bytes) (g : Gap) : Bool × Bytes := g.foldl docStep st
 
-/-- the documentation of a member in front of which the gap `g` stands (behind a token of the previous line) -/
-def docOf (g : Gap) : Bytes := (gapDoc (false, []) g).2
+/-- the pending documentation behind the gap `g`, when `g` follows a token and `lc` was pending at that token -/
+def gapPend (lc : Bytes) (g : Gap) : Bytes := (gapDoc (false, lc) g).2
+
+/-- the documentation of a member that starts on a new line, in front of which the gap `g` stands: the block of
+    comment lines at the end of `g` (`gapPend_break`: nothing in front of `g` matters) -/
+def docOf (g : Gap) : Bytes := gapPend [] g
 
 /-- the documentation of the interface: the gap at the start of the file -/
 def docOfStart (g : Gap) : Bytes := (gapDoc (true, []) g).2
@@ -164,6 +166,31 @@ def LFields.erase : LFields → Fields
   | .cons _ n _ _ t _ r => .typed n t.erase r.erase
 end
 
+/-- the pending documentation behind the names of an enum after the first -/
+def namesPend : List (Gap × Bytes × Gap) → Bytes → Bytes
+  | [], lc => lc
+  | (g1, _, g4) :: r, lc => namesPend r (gapPend (gapPend lc g1) g4)
+
+mutual
+/-- the pending documentation behind a type: every gap inside it may hold line breaks and comment lines -/
+def LTy.pend : LTy → Bytes → Bytes
+  | .maybe t, lc => t.pend lc
+  | .array t, lc => t.pend lc
+  | .map t, lc => t.pend lc
+  | .unit g, lc => gapPend lc g
+  | .struct fs, lc => fs.pend lc
+  | .enum g1 _ g4 r, lc => namesPend r (gapPend (gapPend lc g1) g4)
+  | .bool, lc => lc
+  | .int, lc => lc
+  | .float, lc => lc
+  | .string, lc => lc
+  | .object, lc => lc
+  | .named _, lc => lc
+def LFields.pend : LFields → Bytes → Bytes
+  | .last g1 _ g2 g3 t g4, lc => gapPend (t.pend (gapPend (gapPend (gapPend lc g1) g2) g3)) g4
+  | .cons g1 _ g2 g3 t g4 r, lc => r.pend (gapPend (t.pend (gapPend (gapPend (gapPend lc g1) g2) g3)) g4)
+end
+
 inductive LMember where
   /-- `type` g1 name g4 type -/
   | alias (g1 : Gap) (name : Bytes) (g4 : Gap) (t : LTy)
@@ -187,6 +214,13 @@ def LMember.erase (doc : Bytes) : LMember → Member
   | .method _ n _ i _ _ o => .method n doc i.erase o.erase
   | .errorBare _ n => .error n doc none
   | .error _ n _ t => .error n doc (some t.erase)
+
+/-- the pending documentation behind a member whose keyword was read with `lc` pending -/
+def LMember.pend : LMember → Bytes → Bytes
+  | .alias g1 _ g4 t, lc => t.pend (gapPend (gapPend lc g1) g4)
+  | .method g1 _ g4 i g5 g5' o, lc => o.pend (gapPend (gapPend (i.pend (gapPend (gapPend lc g1) g4)) g5) g5')
+  | .errorBare g1 _, lc => gapPend lc g1
+  | .error g1 _ g6 t, lc => t.pend (gapPend (gapPend lc g1) g6)
 
 def LMember.name : LMember → Bytes
   | .alias _ n _ _ => n
@@ -220,13 +254,30 @@ def renderFinal : Option Bytes → Bytes
 def LIdl.render (L : LIdl) : Bytes :=
   renderGap L.g0 (tInterface ++ renderGap L.ig1 (L.name ++ renderMembers L.members (renderGap L.gEnd (renderFinal L.finalComment))))
 
+/-- the documentation of each member, `lc` being pending behind the token in front of the first gap: the block of
+    comment lines directly above the line of the member's keyword -/
+def memberDocs : Bytes → List (Gap × LMember) → List Bytes
+  | _, [] => []
+  | lc, (g, m) :: r => gapPend lc g :: memberDocs (m.pend (gapPend lc g)) r
+
+/-- the members a list of layouted members denotes, each with its documentation -/
+def membersTree : Bytes → List (Gap × LMember) → List Member
+  | _, [] => []
+  | lc, (g, m) :: r => m.erase (gapPend lc g) :: membersTree (m.pend (gapPend lc g)) r
+
+/-- what is pending behind the interface name: the block above `interface` carried across the gap behind the keyword -/
+def LIdl.startPend (L : LIdl) : Bytes := gapPend (docOfStart L.g0) L.ig1
+
+/-- the documentation of the members, in source order -/
+def LIdl.docs (L : LIdl) : List Bytes := memberDocs L.startPend L.members
+
 /-- the tree it denotes: names, types and order as written, each member documented by the comment block above it,
     the description retained verbatim -/
 def LIdl.tree (L : LIdl) : Idl :=
   { name := L.name
     doc := docOfStart L.g0
     description := L.render
-    members := L.members.map fun (g, m) => m.erase (docOf g) }
+    members := membersTree L.startPend L.members }
 
 /-! ## the layouts inside the grammar -/
 
@@ -274,27 +325,48 @@ end
 /-- a gap that separates a name from the type behind it: non-empty if the type starts with a name byte -/
 def sepOk (g : Gap) (t : LTy) : Bool := !t.startsWord || !g.isEmpty
 
+/-- the last byte of the rendering is a name byte (then a separator is needed in front of the next keyword) -/
+def LTy.endsWord : LTy → Bool
+  | .bool | .int | .float | .string | .object | .named _ => true
+  | .maybe t => t.endsWord
+  | .array t => t.endsWord
+  | .map t => t.endsWord
+  | _ => false
+
+/-- a parenthesised list: `()`, a struct or an enum -/
+def LTy.isList : LTy → Bool
+  | .unit _ | .struct _ | .enum .. => true
+  | _ => false
+
+def LMember.endsWord : LMember → Bool
+  | .alias _ _ _ t => t.endsWord
+  | .method _ _ _ _ _ _ o => o.endsWord
+  | .errorBare _ _ => true
+  | .error _ _ _ t => t.endsWord
+
 def LMember.fits : LMember → Bool
   | .alias g1 n g4 t => g1.wf && !g1.isEmpty && isTypeNameB n && g4.wf && sepOk g4 t && t.fits
   | .method g1 n g4 i g5 g5' o =>
     g1.wf && !g1.isEmpty && isTypeNameB n && g4.wf && sepOk g4 i && i.fits && g5.wf && g5'.wf && o.fits
   | .errorBare g1 n => g1.wf && !g1.isEmpty && isTypeNameB n
-  -- the type of an error stands on the line of its name (the one known finding of C05: idl.go reads it with
-  -- advanceOnLine, so a line break or comment in front of it is rejected)
-  | .error g1 n g6 t => g1.wf && !g1.isEmpty && isTypeNameB n && g6.onLine && sepOk g6 t && t.fits
+  -- the parameters of an error are a parenthesised list (varlink grammar: `error = "error" name struct`), behind
+  -- any gap: line breaks and comments included
+  | .error g1 n g6 t => g1.wf && !g1.isEmpty && isTypeNameB n && g6.wf && t.isList && t.fits
 
-/-- every member stands behind a gap with a line break (members start on a new line) -/
-def membersFit : List (Gap × LMember) → Bool
-  | [] => true
-  | (g, m) :: r => g.wf && g.hasBreak && m.fits && membersFit r
+/-- every member fits; the gap in front of a member is non-empty where the keyword would otherwise merge with the
+    word in front of it (`prevWord`: the token in front of the gap ends in a name byte). No line break is
+    required: several members may share a line. -/
+def membersFit : Bool → List (Gap × LMember) → Bool
+  | _, [] => true
+  | prevWord, (g, m) :: r => g.wf && (!prevWord || !g.isEmpty) && m.fits && membersFit m.endsWord r
 
-/-- `Fits`: the layouted description is inside the grammar and inside the layouts idl.go handles:
-    * names follow the grammar, member names are pairwise distinct, there is a method, no `??`;
-    * comment texts contain no line feed; gaps are non-empty where two words would merge;
-    * (guard 1) every member starts on a new line — its gap contains a line break;
-    * (guard 2) the type of an error is separated from the name by spaces and tabs only (known finding). -/
+/-- `Fits`: the layouted description is inside the grammar:
+    * names follow the grammar, member names are pairwise distinct, there is a method, no `??`, the parameters of
+      an error are a parenthesised list;
+    * comment texts contain no line feed; gaps are non-empty where two words would merge.
+    Every gap may hold any layout: spaces, tabs, CR, line feeds, comments. -/
 def LIdl.fits (L : LIdl) : Bool :=
-  L.g0.wf && L.ig1.wf && !L.ig1.isEmpty && isInterfaceNameB L.name && membersFit L.members
+  L.g0.wf && L.ig1.wf && !L.ig1.isEmpty && isInterfaceNameB L.name && membersFit true L.members
     && uniqueNames (L.members.map fun p => p.2.name) && L.members.any (fun p => p.2.isMethod)
     && L.gEnd.wf && (match L.finalComment with | none => true | some t => t.all (fun c => c != 10))
 
